@@ -228,6 +228,12 @@ static void c03_case(const TypeCtx& c, uint64_t ci) {
     std::string role = "end"; for (auto& f : e.fields) if (d >= f.off && d < f.off + f.len) role = rolename(f.role);
     viol(fmt("C03:bytes-differ:%s:%s", role.c_str(), tkey(c).c_str()), fmt("first difference at byte %zu (field role %s): library %s, docs/format.md reference %s", d, role.c_str(), hex(w.bytes.data() + (d > 8 ? d - 8 : 0), std::min<size_t>(32, w.bytes.size() - (d > 8 ? d - 8 : 0))).c_str(), hex(e.out.data() + (d > 8 ? d - 8 : 0), std::min<size_t>(32, e.out.size() - (d > 8 ? d - 8 : 0))).c_str()), J().s("value", vjson(w.v0)).str());
   }
+  // the shipped writers must emit the documented bytes too (one kind per case, rotating; all kinds per value in C01)
+  { static const int kinds[] = {W_BUFFER, W_PEDANTIC, W_CONSTEXPR, W_STREAM, W_FD, W_B_PEDANTIC, W_B_CONSTEXPR, W_B_STREAM, W_B_BUFFER, W_B_FD};
+    for (int t = 0; t < 2; t++) { int wk = kinds[(ci * 2 + (uint64_t)t) % 10]; if (!w_ok(wk, c.t->flags) || (c.t->flags & F_HANDLE)) continue;
+      Sink s; s.init(wk, w.gs, w.gs); auto st = c.t->write(s, o.p); Bytes b = s.bytes(); rep().count("c03_shipped_writer_encodings_compared");
+      if (!st || b != e.out) { size_t d = 0; while (d < b.size() && d < e.out.size() && b[d] == e.out[d]) d++; std::string role = "end"; for (auto& f : e.fields) if (d >= f.off && d < f.off + f.len) role = rolename(f.role);
+        viol(fmt("C03:bytes-differ:%s:%s:%s", wname(wk), role.c_str(), tkey(c).c_str()), fmt("%s: first difference at byte %zu (field role %s): writer %s, docs/format.md reference %s", wname(wk), d, role.c_str(), hex(b, 40).c_str(), hex(e.out, 40).c_str()), J().s("value", vjson(w.v0)).str()); } } }
   // same object written twice -> same bytes
   Bytes again; nop::ErrorStatus err; if (encode_log(c, o, nullptr, &again, &err)) { if (again != w.bytes) viol(fmt("C03:not-deterministic:%s", tkey(c).c_str()), "writing the same object twice produced different bytes"); }
   if (rep().want_sample(c.t->name, 1) && rep().samples.size() < 14) rep().sample(c.t->name, J().s("type", c.t->name).s("value", vjson(w.v0, 120)).s("bytes", hex(w.bytes, 48)).str(), 1);
@@ -441,6 +447,18 @@ static void c06_case(const TypeCtx& c, uint64_t ci) {
   if (!(c.t->flags & F_HANDLE) && gs != len) viol(fmt("C06:getsize-not-exact:%s", tkey(c).c_str()), fmt("GetSize = %zu but Write emitted %zu bytes (type without handles)", gs, len), J().s("value", vjson(w.v0)).str());
   // table framing: the reference decoder must accept the bytes and end exactly at their end (entry size = value + padding)
   if (c.t->flags & F_TABLE) { Val t; DecResult rr = RefDecode(c.sch, w.bytes.data(), len, &t, nullptr); if (rr.cat != Cat::OK || rr.consumed != len) viol(fmt("C06:entry-framing:%s", tkey(c).c_str()), fmt("entry sizes do not frame the entries: reference decoder says %s after %zu of %zu bytes", catname(rr.cat), rr.consumed, len)); rep().count("c06_table_framings_parsed"); }
+  // handle-bearing types: whatever reference the writer returns (any int64), GetSize must still be an upper bound
+  if ((c.t->flags & F_HANDLE) && !w.log.pushed.empty()) {
+    static const int64_t kBig[] = {2147483647LL, 2147483648LL, 1099511627776LL, INT64_MAX, INT64_MIN, -2147483649LL, -129, 32768};
+    for (int64_t ref : kBig) for (int wk : {W_LOG, W_B_LOG}) {
+      Sink s; if (wk == W_LOG) s.init(W_LOG, gs); else s.init(W_B_LOG, SIZE_MAX, gs);
+      s.log.refs_to_return.assign(64, ref);
+      auto st = c.t->write(s, o.p);
+      rep().count("c06_handle_reference_size_writes"); rep().note(hash_combine(hash_str(c.t->name), hash_combine((uint64_t)ref, hash_combine(ci, (uint64_t)wk))), true);
+      if (!st) viol(fmt("C06:getsize-underestimates:handle-reference:%s", tkey(c).c_str()), fmt("Write into GetSize (%zu) bytes failed with '%s' when the writer returns handle reference %" PRId64, gs, errname(st.error()), ref), J().s("value", vjson(w.v0)).str());
+      else if (s.written() > gs) viol(fmt("C06:getsize-underestimates:handle-reference:%s", tkey(c).c_str()), fmt("%zu bytes written, GetSize %zu, handle reference %" PRId64, s.written(), gs, ref));
+    }
+  }
   std::vector<size_t> caps;
   if (gs <= (size_t)quick_or(300, 2000)) for (size_t k = 0; k <= gs + 1; k++) caps.push_back(k);
   else { caps = {0, 1, gs - 1, gs, gs + 1, len, len - 1}; Rng r = case_rng(c.t->name, ci, 6); for (int i = 0; i < 32; i++) caps.push_back(r.below(gs + 2)); }
